@@ -31,7 +31,7 @@ var vfC12Ids = [vfC12Accounts][]byte{[]byte("vf-c12-contract-0"), []byte("vf-c12
 
 // vfC12Op is one state-changing operation of a transaction on the block state.
 type vfC12Op struct {
-	kind  int // 0 SetData, 1 DeleteData, 2 PutState
+	kind  int // 0 SetData, 1 DeleteData, 2 PutState, 3 open + stage without a write
 	who   int // contract (kind 0,1) or account (kind 2)
 	key   []byte
 	val   []byte
@@ -152,6 +152,10 @@ func (w *vfC12World) apply(op vfC12Op) {
 		if err != nil {
 			vf.Fail("C12.c.write")
 		}
+	case 3:
+		if statedb.StageContractState(w.open(op.who), w.bs.StateDB) != nil {
+			vf.Fail("C12.c.write")
+		}
 	case 2:
 		if w.bs.PutState(w.aid[op.who], &types.State{Nonce: op.nonce, Balance: op.bal}) != nil {
 			vf.Fail("C12.c.write")
@@ -254,7 +258,8 @@ func (w *vfC12World) check(o *vfC12Obs, tag string) {
 }
 
 // pre-state shapes before the (outer) snapshot. shape 0: nothing staged; 1: contract 0 staged with one write;
-// 2: both contracts staged with one write each; 3: contract 0 staged with a write and a delete marker.
+// 2: both contracts staged with one write each; 3: contract 0 staged with a write and a delete marker;
+// 4: contract 0 opened and staged without any write (its staged buffer is empty, revision 0).
 // Optionally (Choice) one account state has been put.
 func (w *vfC12World) pre(shape int, concreteKeys bool) []vfC12Op {
 	var ops []vfC12Op
@@ -268,6 +273,8 @@ func (w *vfC12World) pre(shape int, concreteKeys bool) []vfC12Op {
 		ops = append(ops, set(0), set(1))
 	case 3:
 		ops = append(ops, set(0), vfC12Op{kind: 1, who: 0, key: vfC12Key(concreteKeys), stage: true})
+	case 4:
+		ops = append(ops, vfC12Op{kind: 3, who: 0})
 	}
 	if vf.Param("preAcc", 1) != 0 && vf.Choice("preAcc", 2) == 1 {
 		ops = append(ops, vfC12Op{kind: 2, who: vfC12Acc("preAccWho"), nonce: vf.U64("nonce"), bal: vf.Bytes("bal", 2)})
@@ -301,7 +308,7 @@ func vfC12Keys(opss ...[]vfC12Op) [][]byte {
 	var ks [][]byte
 	for _, ops := range opss {
 		for _, op := range ops {
-			if op.kind != 2 {
+			if op.kind < 2 {
 				ks = append(ks, op.key)
 			}
 		}
@@ -331,6 +338,7 @@ func VF_C12_c_flat0() { vfC12cFlat(0) }
 func VF_C12_c_flat1() { vfC12cFlat(1) }
 func VF_C12_c_flat2() { vfC12cFlat(2) }
 func VF_C12_c_flat3() { vfC12cFlat(3) }
+func VF_C12_c_flat4() { vfC12cFlat(4) }
 
 // C12.c nested: pre-state, outer Snapshot, operations, inner Snapshot, operations, Rollback(inner) — everything reads
 // as at the inner snapshot —, optionally more operations, Rollback(outer) — everything reads as at the outer snapshot.
